@@ -1338,7 +1338,15 @@ def c17(ctx):
                 if host is None:
                     verdicts.append(('und', 'the closure that joins is not passed directly to an iterator method of despawn_threads_if_overloaded'))
                 elif host.endswith(TOTAL):
-                    verdicts.append(('ok', 'joined by %s over all handles' % host.split('::')[-1]))
+                    # ... over the whole collection: no adaptor in front of the consumer that drops elements
+                    PARTIAL = ('Iterator::skip', 'Iterator::take', 'Iterator::step_by', 'Iterator::filter', 'Iterator::filter_map', 'Iterator::take_while', 'Iterator::skip_while',
+                               'Iterator::map_while', 'Iterator::nth', 'Iterator::skip_while', 'Vec::truncate', 'Vec::split_off')
+                    part = [ (t2['func'].get('fn') or '').split('::')[-1] for b2, t2 in dp.calls() if (t2['func'].get('fn') or '').endswith(PARTIAL) and not dp.blocks[b2]['cleanup']
+                             and any(h_ in ' '.join(clean_ty(a_['pl']['ty']) for a_ in t2['args'] if a_['k'] != 'const') for h_ in ('JoinHandle', 'SchedulerThread')) ]
+                    if part:
+                        verdicts.append(('bad', 'the handles are joined by %s, but behind `%s`, which leaves some of them out: those pool threads are detached while still running' % (host.split('::')[-1], part[0])))
+                    else:
+                        verdicts.append(('ok', 'joined by %s over all handles' % host.split('::')[-1]))
                 elif host.endswith(SHORT):
                     verdicts.append(('bad', 'the handles are joined through %s, which can stop early or skip elements: the remaining pool threads are detached while still running (a panicked thread makes join() return Err)' % host.split('::')[-1]))
                 else:
